@@ -105,7 +105,12 @@ func apply(api string, args []cty.Value, x J) (cty.Value, error) {
 		m := map[string]cty.Value{}
 		keys := asL(x["keys"])
 		for i, k := range keys {
-			m[realName(asS(k))] = args[i]
+			kk := asS(k)
+			if strings.HasSuffix(kk, ":nfd") { // a non-normalized spelling of the name
+				m[denorm(realName(strings.TrimSuffix(kk, ":nfd")))] = args[i]
+			} else {
+				m[realName(kk)] = args[i]
+			}
 		}
 		if api == "MapVal" {
 			return cty.MapVal(m), nil
